@@ -99,7 +99,10 @@ fn eval(term: &[Step]) -> Arr {
     }
     x
 }
-fn hex(a: &Arr) -> Value { json!([format!("{:08x}", a[0].to_bits()), format!("{:08x}", a[1].to_bits()), format!("{:08x}", a[2].to_bits())]) }
+/// bit pattern; every NaN is written as the canonical quiet NaN: sign and payload of a NaN are not values
+/// (constant folding and run time evaluation of the same expression differ in them)
+fn bits(x: f32) -> String { if x.is_nan() { "7fc00000".to_string() } else { format!("{:08x}", x.to_bits()) } }
+fn hex(a: &Arr) -> Value { json!([bits(a[0]), bits(a[1]), bits(a[2])]) }
 
 /// A live guard, type-erased. 'a is the lifetime of the borrow it holds.
 trait GuardDyn<'a> {
